@@ -288,7 +288,9 @@ def gen_hasref(subst=F64_SUBST, extra=()):
              em.render('trait_hasref.vrs', subst),
              em.render('one_amount.vrs', subst),
              em.render('one_hasref.vrs', subst),
-             em.render('lemmas_hasref_m0.vrs', subst)]
+             em.render('derived_specs.vrs', subst),
+             em.render('lemmas_hasref_m0.vrs', subst),
+             em.render('lemmas_derived_m0.vrs', subst)]
     for f in extra:
         parts.append(em.render(f, subst))
     text = mark_lemmas(wrap('\n\n'.join(parts)), em.unit)
